@@ -850,12 +850,17 @@ class InputFinalityMonitor(Monitor):
         self.build_log_start = 0
         self.refreshed = set()
         self.refreshed_kind = {}
+        # label -> what the command of its last recorded success read (kept across builds):
+        # a later skip of the step vouches for exactly these contents
+        self.last_success_reads = {}
+        self.skips = []  # (label, inputs) of skip checks that ended SUCCEEDED in this build
 
     def on_build_start(self, world):
         self.cmd_running.clear()
         self.last_rc.clear()
         self.windows.clear()
         self.success.clear()
+        self.skips.clear()
         self.build_log_start = len(world.log)
 
     def on_cmd_start(self, world, proc):
@@ -989,6 +994,22 @@ class InputFinalityMonitor(Monitor):
                                 key,
                             ))
                 self.success.append((label, pid, sorted(inputs), w.get("reads", []), pending_window))
+                self.last_success_reads[label] = list(w.get("reads", []))
+            elif prow[COL["state"]] == CHECKING and row[COL["state"]] == SUCCEEDED:
+                # skipped: the outputs of the last success are taken to be up to date
+                label = snap.nodes[i][1]
+                inputs = set()
+                for idep, (src, snk) in snap.deps.items():
+                    if snk == i and src in snap.files and not snap.nodes[src][3]:
+                        inputs.add(snap.nodes[src][1])
+                # judged against what is recorded at the moment the skip is committed: a change
+                # after that moment is not the skip's doing
+                at_skip = {}
+                for j, (st_, hj) in snap.files.items():
+                    if j in snap.nodes and snap.nodes[j][1] in inputs:
+                        at_skip[snap.nodes[j][1]] = _hex_digest(hj)
+                self.skips.append((label, sorted(inputs), at_skip))
+                self.count("skips_checked")
 
     def on_build_end(self, world, result):
         """Every content a finally-SUCCEEDED step read equals the final content of that input."""
@@ -1042,6 +1063,33 @@ class InputFinalityMonitor(Monitor):
                         f"while the recorded content is {now} at the end of the build",
                         key,
                     )
+        _judge_skips(self, world, final_state, recorded)
+
+
+def _judge_skips(mon, world, final_state, recorded):
+    """A step that was skipped and is SUCCEEDED at the end of the build vouches for outputs
+    that its last successful command derived from what that command read: every input must
+    still have that content."""
+    ran_after = {label for label, *_ in mon.success}
+    for label, inputs, at_skip in mon.skips:
+        st = final_state.get(label)
+        if st is None or st[0] != SUCCEEDED or st[1] or label in ran_after:
+            continue
+        for relpath, d in mon.last_success_reads.get(label, ()):
+            if relpath not in inputs:
+                continue
+            now = at_skip.get(relpath)
+            if now in (None, "?"):
+                continue
+            if d != now:
+                mon.violate(
+                    "R-final/skip",
+                    "skipped-on-changed-input",
+                    f"{label} was skipped and is SUCCEEDED, but its last command read {relpath} "
+                    f"with digest {d} and the content recorded when the skip was committed is {now}",
+                    "skipped-on-changed-input",
+                )
+                break
 
 
 def _hex_digest(hash_json):
